@@ -156,6 +156,24 @@ func checkPackage(res *core.Result, u *gengotypes.Universe, p gengotypes.Package
 			fail("lookup", "scope-name", "accessor for %q returns %v, Scope().Lookup gives %v", n, got, o)
 		}
 	}
+	// names the package does NOT declare: predeclared identifiers (string, error, any, true, iota, len ...) live in the
+	// universe scope, not in the package scope - the accessors answer for the package scope only (seeded change C13-n:
+	// a fallback through Scope().LookupParent) - and a name nobody declares
+	for _, n := range append(types.Universe.Names(), "noSuchNameAnywhere") {
+		if scope.Lookup(n) != nil {
+			continue
+		}
+		if x := p.Type(n); x != nil {
+			fail("lookup", "undeclared-name Type", "Type(%q) returns %v although the package scope has no such name", n, x)
+		}
+		if x := p.Constant(n); x != nil {
+			fail("lookup", "undeclared-name Constant", "Constant(%q) returns %v although the package scope has no such name", n, x)
+		}
+		if x := p.Function(n); x != nil {
+			fail("lookup", "undeclared-name Function", "Function(%q) returns %v although the package scope has no such name", n, x)
+		}
+		res.Inc("undeclared_names_looked_up")
+	}
 	// function-local declarations found in the syntax: the accessors must never hand them out
 	for _, f := range p.Files() {
 		ast.Inspect(f, func(n ast.Node) bool {
